@@ -1,0 +1,194 @@
+//! Verification hooks, compiled only with `--cfg ax_verif`.
+//! They expose crate-private state read-only (plus a few setters) to the replay tool in /verif
+//! and make `fatal_error!` / `opcode_unimplemented!` return `Err` natively, as they do on wasm32.
+use std::cell::Cell;
+
+use iced_x86::Instruction;
+
+use crate::axecutor::Axecutor;
+use crate::helpers::errors::AxError;
+use crate::helpers::operand::Operand;
+use crate::helpers::trace::TraceVariant;
+use crate::state::registers::SupportedRegister;
+
+pub const ERR_NONE: u8 = 0;
+pub const ERR_FATAL: u8 = 1;
+pub const ERR_UNIMPLEMENTED: u8 = 2;
+
+thread_local! {
+    static LAST_ERROR_CLASS: Cell<u8> = const { Cell::new(ERR_NONE) };
+}
+
+/// Called by `fatal_error!` / `opcode_unimplemented!` right before they return their `Err`
+pub fn note_error_class(class: u8) {
+    LAST_ERROR_CLASS.with(|c| c.set(class));
+}
+
+/// Returns the class noted last and resets it
+pub fn take_error_class() -> u8 {
+    LAST_ERROR_CLASS.with(|c| c.replace(ERR_NONE))
+}
+
+#[derive(Debug, Clone, PartialEq, Eq)]
+pub struct VerifTraceEntry {
+    pub instr_ip: u64,
+    pub target: u64,
+    /// 0 = call, 1 = return, 2 = jump
+    pub variant: u8,
+    pub level: i16,
+    pub count: u64,
+}
+
+impl Axecutor {
+    pub fn verif_empty() -> Axecutor {
+        Axecutor::empty()
+    }
+    pub fn verif_rflags(&self) -> u64 {
+        self.state.rflags
+    }
+    pub fn verif_set_rflags(&mut self, v: u64) {
+        self.state.rflags = v;
+    }
+    pub fn verif_finished(&self) -> bool {
+        self.state.finished
+    }
+    pub fn verif_set_finished(&mut self, v: bool) {
+        self.state.finished = v;
+    }
+    pub fn verif_executed(&self) -> u64 {
+        self.state.executed_instructions_count
+    }
+    pub fn verif_set_executed(&mut self, v: u64) {
+        self.state.executed_instructions_count = v;
+    }
+    pub fn verif_max_instructions(&self) -> Option<u64> {
+        self.state.max_instructions
+    }
+    pub fn verif_code_end_addr(&self) -> u64 {
+        self.code_end_addr
+    }
+    pub fn verif_set_code_end_addr(&mut self, v: u64) {
+        self.code_end_addr = v;
+    }
+    pub fn verif_stack_top(&self) -> u64 {
+        self.stack_top
+    }
+    pub fn verif_set_stack_top(&mut self, v: u64) {
+        self.stack_top = v;
+    }
+    pub fn verif_hooks_running(&self) -> bool {
+        self.hooks.running
+    }
+    pub fn verif_call_stack(&self) -> Vec<u64> {
+        self.state.call_stack.clone()
+    }
+    pub fn verif_set_call_stack(&mut self, v: Vec<u64>) {
+        self.state.call_stack = v;
+    }
+    pub fn verif_trace(&self) -> Vec<VerifTraceEntry> {
+        self.state
+            .trace
+            .iter()
+            .map(|t| VerifTraceEntry {
+                instr_ip: t.instr_ip,
+                target: t.target,
+                variant: match t.variant {
+                    TraceVariant::Call => 0,
+                    TraceVariant::Return => 1,
+                    TraceVariant::Jump => 2,
+                },
+                level: t.level,
+                count: t.count,
+            })
+            .collect()
+    }
+    pub fn verif_set_trace(&mut self, v: Vec<VerifTraceEntry>) {
+        self.state.trace = v
+            .into_iter()
+            .map(|t| crate::helpers::trace::TraceEntry {
+                instr_ip: t.instr_ip,
+                target: t.target,
+                variant: match t.variant {
+                    0 => TraceVariant::Call,
+                    1 => TraceVariant::Return,
+                    _ => TraceVariant::Jump,
+                },
+                level: t.level,
+                count: t.count,
+            })
+            .collect();
+    }
+    /// 0 = call, 1 = return, anything else = jump
+    pub fn verif_trace_event(
+        &mut self,
+        i: Instruction,
+        target: u64,
+        variant: u8,
+    ) -> Result<(), AxError> {
+        match variant {
+            0 => self.trace_call(i, target),
+            1 => self.trace_return(i, target),
+            _ => self.trace_jump(i, target),
+        }
+    }
+    /// (start, length, access, data length, name) of every area, in list order
+    pub fn verif_areas(&self) -> Vec<(u64, u64, u32, usize, Option<String>)> {
+        self.state.memory.iter().map(|a| a.verif_view()).collect()
+    }
+    pub fn verif_brk(&self) -> (u64, u64) {
+        self.state.syscalls.verif_brk()
+    }
+    #[allow(clippy::type_complexity)]
+    pub fn verif_pipes(&self) -> (Vec<(u64, u64)>, Vec<(u64, u64)>, Vec<(u64, Vec<u8>)>) {
+        self.state.syscalls.verif_pipes()
+    }
+    pub fn verif_decode_at(&self, rip: u64) -> Result<Instruction, AxError> {
+        self.decode_at(rip)
+    }
+    pub fn verif_mem_read_executable_bytes(&self, address: u64) -> Result<Vec<u8>, AxError> {
+        self.mem_read_executable_bytes(address)
+    }
+    /// Effective address of operand `idx` if it is a memory operand
+    pub fn verif_operand_addr(&self, i: Instruction, idx: u32) -> Result<Option<u64>, AxError> {
+        Ok(match self.instruction_operand(i, idx)? {
+            Operand::Memory(m) => Some(self.mem_addr(m)),
+            _ => None,
+        })
+    }
+    pub fn verif_set_flags(&mut self, width: u8, set: u64, clear: u64, result: u64) {
+        match width {
+            8 => self.set_flags_u8(set, clear, result as u8),
+            16 => self.set_flags_u16(set, clear, result as u16),
+            32 => self.set_flags_u32(set, clear, result as u32),
+            _ => self.set_flags_u64(set, clear, result),
+        }
+    }
+    pub fn verif_symbol_table(&self) -> Vec<(u64, String)> {
+        let mut v: Vec<(u64, String)> = self
+            .symbol_table
+            .iter()
+            .map(|(a, b)| (*a, b.clone()))
+            .collect();
+        v.sort();
+        v
+    }
+}
+
+/// Contents of the register lookup tables, for every `SupportedRegister` in declaration order:
+/// (register, parent in REGISTER_TO_QWORD, is in HIGHER_BYTE_REGISTERS)
+pub fn verif_register_tables() -> Vec<(SupportedRegister, Option<SupportedRegister>, bool)> {
+    use crate::state::registers::{HIGHER_BYTE_REGISTERS, REGISTER_TO_QWORD};
+    let mut out = Vec::new();
+    for r in iced_x86::Register::values() {
+        let sr = match std::panic::catch_unwind(|| SupportedRegister::from(r)) {
+            Ok(sr) => sr,
+            Err(_) => continue,
+        };
+        out.push((
+            sr,
+            REGISTER_TO_QWORD.get(&sr).copied(),
+            HIGHER_BYTE_REGISTERS.contains(&sr),
+        ));
+    }
+    out
+}
